@@ -10,6 +10,7 @@ package main
 
 import (
 	"context"
+	"database/sql"
 	"database/sql/driver"
 	"encoding/json"
 	"errors"
@@ -36,6 +37,17 @@ type c07RowB struct {
 	A  *int64
 	B  int64
 	S  string
+	P  int64 `sql:",implicitnull"`
+}
+
+var c07Cols = []string{"id", "a", "b", "s", "p"}
+
+// c07P: the fifth element of a row tuple (older recorded cases have four: NULL)
+func c07P(r []int64) int64 {
+	if len(r) > 4 {
+		return r[4]
+	}
+	return 0
 }
 
 var c07Tables = []string{"rows", "rowsb"}
@@ -43,12 +55,12 @@ var c07Tables = []string{"rows", "rowsb"}
 type c07Query struct {
 	Table  int     `json:"table"`
 	Filter []c10KV `json:"filter"`
-	Kind   string  `json:"kind"`  // query | dep (AddDependency + plain read)
+	Kind   string  `json:"kind"`  // query | row (QueryRow) | dep (AddDependency + plain read)
 	Group  int     `json:"group"` // queries of one group run in one rerunner, one after the other
 }
 
 type c07Op struct {
-	Op    string    `json:"op"` // insert | upsert | update | delete | insertRows | upsertRows | deliver | noise | pause
+	Op    string    `json:"op"` // insert | upsert | update | delete | insertRows | upsertRows | deliver | noise | pause | reorder (N: permutation seed)
 	Table int       `json:"table"`
 	Rows  [][]int64 `json:"rows,omitempty"` // id, a (-1 NULL), b, s
 	Bad   int       `json:"bad,omitempty"`  // 0: decodable; 1: column count; 2: type mismatch; 3: odd update
@@ -141,6 +153,7 @@ type c07World struct {
 	delivers int
 	foreign  map[int64]bool // goroutines of the harness's own direct reads
 	fdb      *fsDB
+	tableID  int
 }
 
 func c07ModelRow(r map[string]driver.Value) interface{} {
@@ -150,37 +163,99 @@ func c07ModelRow(r map[string]driver.Value) interface{} {
 	}
 	var sv int64
 	fmt.Sscanf(fmt.Sprint(r["s"]), "s%d", &sv)
-	return []interface{}{[]interface{}{0, toInt64(r["id"])}, []interface{}{1, a}, []interface{}{2, toInt64(r["b"])}, []interface{}{3, sv}}
+	var pv interface{}
+	if r["p"] != nil {
+		pv = toInt64(r["p"])
+	}
+	return []interface{}{[]interface{}{0, toInt64(r["id"])}, []interface{}{1, a}, []interface{}{2, toInt64(r["b"])}, []interface{}{3, sv}, []interface{}{5, pv}}
+}
+
+// c07EncFilter: the filter in the model's terms: 0 on the implicitnull column means NULL
+func c07EncFilter(f []c10KV) interface{} {
+	out := []interface{}{}
+	for _, kv := range f {
+		v := kv.Val.enc()
+		if kv.Col == "p" && kv.Val.V == 0 {
+			v = nil
+		}
+		out = append(out, []interface{}{c10ColID[kv.Col], v})
+	}
+	return out
 }
 
 // c07BinlogRow: the row as go-mysql hands it over: integers in the width of the column type, strings as
 // string or []byte, NULL as nil
-func (w *c07World) binlogRow(r map[string]driver.Value, bad int) []interface{} {
+func (w *c07World) binlogRow(table string, r map[string]driver.Value, bad int) []interface{} {
 	id := toInt64(r["id"])
-	row := []interface{}{id, nil, int32(toInt64(r["b"])), fmt.Sprint(r["s"])}
+	val := map[string]interface{}{"id": id, "a": nil, "b": int32(toInt64(r["b"])), "s": fmt.Sprint(r["s"]), "p": nil}
 	if r["a"] != nil {
 		if w.rnd.Bool() {
-			row[1] = int32(toInt64(r["a"]))
+			val["a"] = int32(toInt64(r["a"]))
 		} else {
-			row[1] = toInt64(r["a"])
+			val["a"] = toInt64(r["a"])
+		}
+	}
+	if r["p"] != nil {
+		if w.rnd.Bool() {
+			val["p"] = int32(toInt64(r["p"]))
+		} else {
+			val["p"] = toInt64(r["p"])
 		}
 	}
 	if w.rnd.Chance(0.3) {
-		row[0] = int32(id)
+		val["id"] = int32(id)
 	}
 	if w.rnd.Chance(0.3) {
-		row[3] = []byte(fmt.Sprint(r["s"]))
+		val["s"] = []byte(fmt.Sprint(r["s"]))
 	}
 	if w.rnd.Chance(0.3) {
-		row[2] = int8(toInt64(r["b"]))
+		val["b"] = int8(toInt64(r["b"]))
 	}
-	switch bad {
-	case 1:
+	if bad == 2 {
+		val["id"] = "not-a-number"
+	}
+	// values in the table's current column order (called under the fake database's lock)
+	var row []interface{}
+	for _, cn := range w.fdb.tables[table].Cols {
+		row = append(row, val[cn])
+	}
+	if bad == 1 {
 		row = append(row, int64(0)) // a column more than information_schema reports
-	case 2:
-		row[0] = "not-a-number"
 	}
 	return row
+}
+
+// reorder: the table's columns change their order (ALTER TABLE .. MODIFY COLUMN .. AFTER ..): done while no event
+// written under the old order is still on its way (a column map fetched too late is livesql's documented
+// limitation), and announced in the change log by a table map event with a new table id.
+func (w *c07World) reorder(ch chan *replication.BinlogEvent, table string, seed int) bool {
+	for try := 0; try < 50; try++ {
+		w.push(ch, 1<<30)
+		w.fdb.mu.Lock()
+		w.mu.Lock()
+		idle := len(w.pending) == 0 && w.delivers >= w.expected && w.polled == w.pushed && len(w.stmt) == 0
+		if idle {
+			t := w.fdb.tables[table]
+			cols := append([]string{}, t.Cols...)
+			pr := NewRand(uint64(seed) + 77)
+			for i := len(cols) - 1; i > 0; i-- {
+				j := pr.Intn(i + 1)
+				cols[i], cols[j] = cols[j], cols[i]
+			}
+			t.Cols = cols
+			w.tableID++
+			w.pending = append(w.pending, c07Pending{&replication.BinlogEvent{Header: &replication.EventHeader{EventType: replication.TABLE_MAP_EVENT},
+				Event: &replication.TableMapEvent{Schema: []byte("db"), Table: []byte(table), TableID: uint64(100 + w.tableID)}}, false})
+			w.seq++
+		}
+		w.mu.Unlock()
+		w.fdb.mu.Unlock()
+		if idle {
+			return true
+		}
+		time.Sleep(2 * time.Millisecond)
+	}
+	return false
 }
 
 // endStatement turns the row changes of the finished write statement into events of the change log
@@ -228,16 +303,16 @@ func (w *c07World) endStatement() {
 			case "ins":
 				lab.Cs = append(lab.Cs, map[string]interface{}{"c": "ins", "r": c07ModelRow(c.after)})
 				lab.images = append(lab.images, [2]interface{}{nil, c07ModelRow(c.after)})
-				re.Rows = append(re.Rows, w.binlogRow(c.after, rowBad))
+				re.Rows = append(re.Rows, w.binlogRow(group[0].table, c.after, rowBad))
 			case "del":
 				lab.Cs = append(lab.Cs, map[string]interface{}{"c": "del", "i": c.idx - deleted})
 				deleted++
 				lab.images = append(lab.images, [2]interface{}{c07ModelRow(c.before), nil})
-				re.Rows = append(re.Rows, w.binlogRow(c.before, rowBad))
+				re.Rows = append(re.Rows, w.binlogRow(group[0].table, c.before, rowBad))
 			case "upd":
 				lab.Cs = append(lab.Cs, map[string]interface{}{"c": "upd", "i": c.idx, "r": c07ModelRow(c.after)})
 				lab.images = append(lab.images, [2]interface{}{c07ModelRow(c.before), c07ModelRow(c.after)})
-				re.Rows = append(re.Rows, w.binlogRow(c.before, rowBad), w.binlogRow(c.after, rowBad))
+				re.Rows = append(re.Rows, w.binlogRow(group[0].table, c.before, rowBad), w.binlogRow(group[0].table, c.after, rowBad))
 			}
 		}
 		switch kind {
@@ -296,7 +371,7 @@ func (w *c07World) push(ch chan *replication.BinlogEvent, n int) {
 }
 
 func c07Row(r []int64) *c10Row {
-	row := &c10Row{Id: r[0], B: r[2], S: fmt.Sprintf("s%d", r[3])}
+	row := &c10Row{Id: r[0], B: r[2], S: fmt.Sprintf("s%d", r[3]), P: c07P(r)}
 	if r[1] >= 0 {
 		a := r[1]
 		row.A = &a
@@ -306,15 +381,23 @@ func c07Row(r []int64) *c10Row {
 
 func c07RowBOf(r []int64) *c07RowB {
 	x := c07Row(r)
-	return &c07RowB{Id: x.Id, A: x.A, B: x.B, S: x.S}
+	return &c07RowB{Id: x.Id, A: x.A, B: x.B, S: x.S, P: x.P}
 }
 
-func c07FullRow(id int64, a *int64, b int64, s string) string {
+func c07FullRow(id int64, a *int64, b int64, s string, p int64) string {
 	as := "NULL"
 	if a != nil {
 		as = fmt.Sprint(*a)
 	}
-	return fmt.Sprintf("%d|%s|%d|%s", id, as, b, s)
+	return fmt.Sprintf("%d|%s|%d|%s|%d", id, as, b, s, p)
+}
+
+// c07RowView: what a QueryRow caller holds: the row, nothing (sql.ErrNoRows), or the refusal of several rows
+func c07RowView(ids []int64, full []string) ([]int64, []string) {
+	if len(ids) > 1 {
+		return []int64{-1}, []string{"<more than one row>"}
+	}
+	return ids, full
 }
 
 // c07Direct evaluates a filter on the fake table as it is now (the database's answer), through a plain,
@@ -332,7 +415,7 @@ func (w *c07World) direct(db *sqlgen.DB, q c07Query) ([]int64, []string, error) 
 		}
 		for _, r := range out {
 			ids = append(ids, r.Id)
-			full = append(full, c07FullRow(r.Id, r.A, r.B, r.S))
+			full = append(full, c07FullRow(r.Id, r.A, r.B, r.S, r.P))
 		}
 	} else {
 		var out []*c07RowB
@@ -341,7 +424,7 @@ func (w *c07World) direct(db *sqlgen.DB, q c07Query) ([]int64, []string, error) 
 		}
 		for _, r := range out {
 			ids = append(ids, r.Id)
-			full = append(full, c07FullRow(r.Id, r.A, r.B, r.S))
+			full = append(full, c07FullRow(r.Id, r.A, r.B, r.S, r.P))
 		}
 	}
 	return ids, full, nil
@@ -355,11 +438,11 @@ func c07One(c *Ctx, m *Model, cs c07Case) {
 	w.fdb = fdb
 	tablesEnc := []interface{}{}
 	for t, name := range c07Tables {
-		fdb.createTable(name, []string{"id", "a", "b", "s"}, []string{"id"})
+		fdb.createTable(name, append([]string{}, c07Cols...), []string{"id"})
 		rows := []interface{}{}
 		if t < len(cs.Init) {
 			for _, r := range cs.Init[t] {
-				row := map[string]driverValue{"id": r[0], "a": driverNull(r[1], r[1] < 0), "b": r[2], "s": fmt.Sprintf("s%d", r[3])}
+				row := map[string]driverValue{"id": r[0], "a": driverNull(r[1], r[1] < 0), "b": r[2], "s": fmt.Sprintf("s%d", r[3]), "p": driverNull(c07P(r), c07P(r) == 0)}
 				fdb.tables[name].Rows = append(fdb.tables[name].Rows, row)
 				rows = append(rows, c07ModelRow(row))
 			}
@@ -490,6 +573,12 @@ func c07One(c *Ctx, m *Model, cs c07Case) {
 			_, err = conn.ExecContext(wctx, "DELETE FROM "+c07Tables[tbl]+" WHERE b = ?", op.Rows[0][2])
 		case "deliver":
 			w.push(ch, op.N)
+		case "reorder":
+			if !w.reorder(ch, c07Tables[tbl], op.N) {
+				w.mu.Lock()
+				w.errs = append(w.errs, "reorder: the change log never became idle")
+				w.mu.Unlock()
+			}
 		case "noise":
 			w.noise(op.N)
 		case "pause":
@@ -560,7 +649,7 @@ func c07One(c *Ctx, m *Model, cs c07Case) {
 	firstOf := map[string]int{}
 	for i, q := range cs.Queries {
 		alias[i] = i
-		if q.Kind == "query" {
+		if q.Kind == "query" || q.Kind == "row" {
 			if j, ok := firstOf[keyOf(q)]; ok {
 				alias[i] = j
 			} else {
@@ -600,14 +689,14 @@ func c07One(c *Ctx, m *Model, cs c07Case) {
 						err = query(&out)
 						for _, r := range out {
 							ids = append(ids, r.Id)
-							full = append(full, c07FullRow(r.Id, r.A, r.B, r.S))
+							full = append(full, c07FullRow(r.Id, r.A, r.B, r.S, r.P))
 						}
 					} else {
 						var out []*c07RowB
 						err = query(&out)
 						for _, r := range out {
 							ids = append(ids, r.Id)
-							full = append(full, c07FullRow(r.Id, r.A, r.B, r.S))
+							full = append(full, c07FullRow(r.Id, r.A, r.B, r.S, r.P))
 						}
 					}
 				}
@@ -616,6 +705,27 @@ func c07One(c *Ctx, m *Model, cs c07Case) {
 						err = derr
 					} else {
 						read(func(result interface{}) error { return ldb.DB.Query(ctx, result, c10Filter(q.Filter), nil) })
+					}
+				} else if q.Kind == "row" {
+					// QueryRow: "no row" and "several rows" are answers the caller handles and carries on with
+					var full1 []string
+					if q.Table == 0 {
+						var one *c10Row
+						if err = ldb.QueryRow(ctx, &one, c10Filter(q.Filter), nil); err == nil {
+							ids, full1 = []int64{one.Id}, []string{c07FullRow(one.Id, one.A, one.B, one.S, one.P)}
+						}
+					} else {
+						var one *c07RowB
+						if err = ldb.QueryRow(ctx, &one, c10Filter(q.Filter), nil); err == nil {
+							ids, full1 = []int64{one.Id}, []string{c07FullRow(one.Id, one.A, one.B, one.S, one.P)}
+						}
+					}
+					full = full1
+					if err == sql.ErrNoRows {
+						err = nil
+					} else if err != nil && strings.Contains(err.Error(), "expected no more than 1 result") {
+						err = nil
+						ids, full = c07RowView([]int64{0, 0}, nil)
 					}
 				} else {
 					read(func(result interface{}) error { return ldb.Query(ctx, result, c10Filter(q.Filter), nil) })
@@ -679,6 +789,9 @@ func c07One(c *Ctx, m *Model, cs c07Case) {
 			ech <- errors.New("done")
 			return
 		}
+		if q.Kind == "row" {
+			ids, full = c07RowView(ids, full)
+		}
 		want[i] = answer{ids, full}
 	}
 	for _, rr := range rrs {
@@ -723,7 +836,7 @@ func c07One(c *Ctx, m *Model, cs c07Case) {
 	queries := []interface{}{}
 	for _, qi := range modelQs {
 		q := cs.Queries[qi]
-		queries = append(queries, map[string]interface{}{"t": q.Table, "f": c10EncFilter(q.Filter)})
+		queries = append(queries, map[string]interface{}{"t": q.Table, "f": c07EncFilter(q.Filter)})
 	}
 	resp, err := m.Call(map[string]interface{}{"op": "run", "tables": tablesEnc, "queries": queries, "labels": labels})
 	if err != nil {
@@ -797,6 +910,9 @@ func c07One(c *Ctx, m *Model, cs c07Case) {
 		if mq["rows"] != nil {
 			mids = c10ModelIds(mq["rows"])
 		}
+		if cs.Queries[i].Kind == "row" {
+			mids, _ = c07RowView(mids, nil)
+		}
 		if fmt.Sprint(mids) != fmt.Sprint(append([]int64{}, w.held[i]...)) {
 			rep.Fail("impl_ne_model", nil, cs, map[string]interface{}{"what": "rows held by a live query differ from the model's", "query": i, "impl": w.held[i], "model": mids})
 			return
@@ -831,7 +947,20 @@ func derefAny(v interface{}) interface{} {
 }
 
 func c07GenRow(r *Rand) []int64 {
-	return []int64{int64(1 + r.Intn(8)), int64(r.Intn(4)) - 1, int64(r.Intn(3)), int64(r.Intn(3))}
+	return []int64{int64(1 + r.Intn(8)), int64(r.Intn(4)) - 1, int64(r.Intn(3)), int64(r.Intn(3)), []int64{0, 0, 1, 2}[r.Intn(4)]}
+}
+
+// c07GenFilter: C10's filters on the plain columns, and filters on the implicitnull column carried in the driver's
+// own types (int64) and others: 0 selects the NULLs
+func c07GenFilter(r *Rand) []c10KV {
+	if r.Chance(0.75) {
+		return c10GenFilter(r)
+	}
+	pv := c10Val{[]string{"int64", "int64", "int", "named"}[r.Intn(4)], []int64{0, 0, 1, 2}[r.Intn(4)]}
+	if r.Chance(0.3) {
+		return []c10KV{{"p", pv}, {"b", c10Val{"int64", int64(r.Intn(3))}}}
+	}
+	return []c10KV{{"p", pv}}
 }
 
 func c07Gen(r *Rand) c07Case {
@@ -849,12 +978,14 @@ func c07Gen(r *Rand) c07Case {
 	}
 	nq := 1 + r.Intn(4)
 	for i := 0; i < nq; i++ {
-		q := c07Query{Table: 0, Filter: c10GenFilter(r), Kind: "query", Group: i}
+		q := c07Query{Table: 0, Filter: c07GenFilter(r), Kind: "query", Group: i}
 		if r.Chance(0.25) {
 			q.Table = 1
 		}
 		if r.Chance(0.2) {
 			q.Kind = "dep"
+		} else if r.Chance(0.25) {
+			q.Kind = "row"
 		}
 		if i > 0 && r.Chance(0.3) {
 			q.Group = cs.Queries[i-1].Group // shares a rerunner with its predecessor: cache hits
@@ -867,7 +998,9 @@ func c07Gen(r *Rand) c07Case {
 		if r.Chance(0.25) {
 			op.Table = 1
 		}
-		switch r.Intn(12) {
+		switch r.Intn(13) {
+		case 12:
+			op.Op, op.N = "reorder", r.Intn(1000)
 		case 0, 1:
 			op.Op, op.Rows = "insert", [][]int64{c07GenRow(r)}
 		case 2:
@@ -928,7 +1061,7 @@ func runC07(c *Ctx) error {
 		return err
 	}
 	defer m.Close()
-	c.Rep.Rule = "random histories on a real livesql.LiveDB over the fake SQL driver and a livesql.Binlog fed in-process: 1-4 live queries (LiveDB.Query or AddDependency + plain read; two tables; filters over id / a (nullable pointer, nil filters) / b / s in several Go representations; alone or sharing a rerunner so that reruns hit the reactive cache) x 4-24 operations (InsertRow, UpsertRow, UpdateRow, DeleteRow, InsertRows, UpsertRows; events handed to the poll loop late, in bursts, between registration and read; events in go-mysql's typed representation with varying integer widths and []byte strings; undecodable events: column count, type mismatch, odd update; noise: other schema, unknown table, table map with a new id, other event types); after writes stop, each live query's rows are compared with the database's answer (the property), every tracked event must reach the tracker, and the linearised log (write / register / read / deliver) is replayed in the Lean model: accepted, same events, same invalidated queries per delivery, quiescent, same rows"
+	c.Rep.Rule = "random histories on a real livesql.LiveDB over the fake SQL driver and a livesql.Binlog fed in-process: 1-4 live queries (LiveDB.Query, LiveDB.QueryRow whose caller carries on after 'no row' / 'several rows', or AddDependency + plain read; two tables; filters over id / a (nullable pointer, nil filters) / b / s / p (an implicitnull column: 0 selects the NULLs, carried as int64, int or a named type) in several Go representations; alone or sharing a rerunner so that reruns hit the reactive cache) x 4-24 operations (InsertRow, UpsertRow, UpdateRow, DeleteRow, InsertRows, UpsertRows; events handed to the poll loop late, in bursts, between registration and read; events in go-mysql's typed representation with varying integer widths and []byte strings; undecodable events: column count, type mismatch, odd update; noise: other schema, unknown table, table map with a new id, other event types; the columns of a table change their order, announced by a table map event with a new id, later events in the new order); after writes stop, each live query's rows are compared with the database's answer (the property), every tracked event must reach the tracker, and the linearised log (write / register / read / deliver) is replayed in the Lean model: accepted, same events, same invalidated queries per delivery, quiescent, same rows"
 	c.Rep.Assumptions = append(c.Rep.Assumptions,
 		"the change log carries the before / after images of exactly the rows a statement changed (MySQL row-based replication with full row images; here: the fake database)",
 		"go-mysql's wire decoding is not exercised: events enter at replication.BinlogStreamer")
